@@ -219,9 +219,12 @@ def parse_items(toks, f=None):
                 fn, i = parse_fn(toks, i + 1)
                 f.fns[fn.name] = fn
                 continue
+            if toks[i + 1][1] == "mut":       # `static mut X: T = e;`
+                i += 1
             name = toks[i + 1][1]
             j = i + 2
-            assert toks[j][1] == ":"
+            if toks[j][1] != ":":
+                raise Unsupported(f"const/static item {name}")
             k = j + 1
             while toks[k][1] != "=":
                 k += 1
